@@ -123,7 +123,8 @@ def execute(ctx, layer, cases, name):
     obs = ctx.read_ndjson(outp)
     if len(obs) != len(cases):
         raise ToolError("harness returned %d observations for %d cases" % (len(obs), len(cases)))
-    selftest(ctx, layer, cases, obs)
+    if layer != "extreme":
+        selftest(ctx, layer, cases, obs)
     for c, o in zip(cases, obs):
         if layer == "bucket":
             judge_bucket(ctx, c, o)
